@@ -317,15 +317,18 @@ Definition act_create_and_broadcast_opening (d : swap_data) : M (string * swap_d
           match get_opening_amount d1 with
           | None => panic d1
           | Some amt =>
-            r <- pop_create_opening ;;
-            emit (EBroadcastOpening (get_taker_pubkey d1) (get_maker_pubkey d1) (snd pre) amt (p_csv pol) lb r) ;;;
-            match r with
+            (* the starting height is looked up BEFORE the wallet call (repo commit "fix: swap: look up the
+               starting block height before broadcasting the opening transaction"): nothing fallible stands
+               between the broadcast and the record of it *)
+            h <- pop_height ;;
+            match h with
             | None => fail d1
-            | Some o =>
-              h <- pop_height ;;
-              match h with
+            | Some height =>
+              r <- pop_create_opening ;;
+              emit (EBroadcastOpening (get_taker_pubkey d1) (get_maker_pubkey d1) (snd pre) amt (p_csv pol) lb r) ;;;
+              match r with
               | None => fail d1
-              | Some height =>
+              | Some o =>
                 let d2 := d1 <| d_start_height := height |>
                              <| d_start_set := (if is_lbtc_v7 tc d1 then true else d_start_set d1) |>
                              <| d_opening_hex := or_hex o |> in
